@@ -155,6 +155,7 @@ def c01(c):
                      "sign skeleton up to depth 3 (5 in thorough) generated by TLC from SignLoop.tla and forced through the fault taps; "
                      "scripted extreme generator outputs; 16 threads sharing one key (every 200th signature promoted). Each signature is one "
                      "heavy event: TLC recomputes SpecVerify from the bytes and demands TRUE. distinct_nontrivial = distinct (tag, branch) classes")
+    _mc_falcon(c, ["code", "algebra"] + (["deep"] if thorough else []), ["strict", "redraw"], vac=["NeverIssued", "NeverAtBound", "NeverRetried"])
     gen = runner.fresh_dir(os.path.join(c.work, "gen"))
     g = McOutcome()
     model_check(g, [dict(module="Gen_SignPaths", cfg="Gen_SignPaths_deep" if thorough else "Gen_SignPaths", workers=1, env={"GEN_DIR": gen})])
@@ -167,3 +168,46 @@ def c01(c):
                                            "detail": ev.get("detail")}, label="signloop")
     c.assumptions += ["fault taps (verif::tap_norm / tap_compress) force a retry without otherwise changing the computation",
                       "ffSampling returning integral z is observed through the verifying signature, not proved for all float inputs"]
+
+
+def system_key(ev, v):
+    if ev.get("ev") == "history":
+        return {"ev": "history", "name": ev.get("name"), "detail": ev.get("detail")}
+    return {"ev": ev.get("ev"), "proc": ev.get("proc"), "thr": ev.get("thr"), "seq": ev.get("seq"), "n": ev.get("n"), "tag": ev.get("tag")}
+
+
+def _mc_falcon(c, names_pass, names_broken, vac=()):
+    mc = McOutcome()
+    runs = [dict(module="MC_Falcon", cfg="MC_Falcon_" + n, workers=16, xmx="8g", timeout=2400) for n in names_pass]
+    runs += [dict(module="MC_Falcon", cfg="MC_Falcon_" + n, workers=8, expect="violation", timeout=1200) for n in names_broken]
+    runs += [dict(module="MC_Falcon", cfg="MC_Falcon_vac_" + n, workers=8, expect="violation", timeout=1200) for n in vac]
+    model_check(mc, runs)
+    c.add_mc(mc)
+
+
+def c08(c):
+    thorough = c.tier == "thorough"
+    c.cov["rule"] = ("MC_Falcon: SaltsFresh and SaltDrawnOnce over all interleavings of 2 (3) threads on the toy ring; the broken variants "
+                     "(shared unsynchronised generator position, salt derived from the message, salt re-drawn on retry) must give "
+                     "counterexamples. Trace_System: histories of real sign calls -- 3 processes x 16 threads x 2 keys x 4 messages, both "
+                     "variants -- no salt repeated in the whole history, every salt byte position takes >= 200 distinct values, signatures of one "
+                     "message differ. distinct_nontrivial = number of history predicates and event classes evaluated")
+    _mc_falcon(c, ["code"] + (["deep"] if thorough else []), ["shared", "saltmsg", "redraw2"], vac=["NeverIssued", "NeverRetried"])
+    drive("c08", ["--tier", c.tier, "--seed", c.seed, "--out", c.work], timeout=7200)
+    to = validate_traces("Trace_System", traces_in(c.work, "system"), parallel=2, sparse=True, xmx="12g", timeout=7200)
+    c.add_traces(to, keyfn=system_key, relevant=lambda ev, v: ev.get("ev") == "sign" or ev.get("name", "").startswith(("salt", "same-msg")))
+    c.assumptions += ["unpredictability of rand::ThreadRng itself (rand crate, OS entropy) is trusted",
+                      "'never repeated' is decided on the observed history"]
+
+
+def c15(c):
+    thorough = c.tier == "thorough"
+    c.cov["rule"] = ("MC_Falcon: KeygenFunctional / KeysStable / SeedSensitive under all interleavings with signing threads; the broken variant "
+                     "(keygen reads the thread's generator) must give a counterexample. Trace_System: the same seeds in one thread, after "
+                     "signing, in 12 threads concurrently with 4 signing threads, and in 2 child processes must give identical digests; all 256 "
+                     "single-bit flips of a base seed (32 for Falcon-1024 in quick) must give pairwise different keys")
+    _mc_falcon(c, ["keys"], ["keyrng"])
+    drive("c15", ["--tier", c.tier, "--seed", c.seed, "--out", c.work], timeout=7200)
+    to = validate_traces("Trace_System", traces_in(c.work, "system"), parallel=1, sparse=True, xmx="6g")
+    c.add_traces(to, keyfn=system_key, relevant=lambda ev, v: ev.get("ev") == "keygen" or ev.get("name", "").startswith("keygen"))
+    c.assumptions += ["SHA3-256 digests identify the key byte strings", "'every seed' is sampled; all 256 bit positions are covered for the sampled base seeds"]
